@@ -2,6 +2,7 @@ package main
 
 import (
 	"fmt"
+	"math"
 	"math/big"
 
 	"github.com/tuneinsight/lattigo/v6/core/rlwe"
@@ -17,7 +18,6 @@ import (
 	"verif/ref"
 	"verif/uni"
 )
-
 
 // ckksWorld: parties, message, its plaintext polynomial (exact integers) and its encryption.
 type ckksWorld struct {
@@ -50,10 +50,27 @@ func newCKKSWorld(c *engine.Chooser, name string, k cfg) *ckksWorld {
 	w.rp = w.params.Parameters
 	uni.Seed(c, name, "setup")
 	w.P = mp.NewParties(w.rp, k.n)
-	w.enc = ckks.NewEncoder(w.params)
+	w.enc = newEncoder(w.params)
 	inScale := w.params.DefaultScale()
 	if k.inScale != 0 {
 		inScale = rlwe.NewScale(new(big.Float).SetInt(new(big.Int).Lsh(big.NewInt(1), uint(k.inScale))))
+	}
+	maxL := w.rp.MaxLevel()
+	switch k.scaleKind {
+	case "nd": // not a power of two, more than 53 significant bits: 2^k + 2^(k-53) - 1
+		ls := uint(k.logScale)
+		v := new(big.Int).Lsh(big.NewInt(1), ls)
+		v.Add(v, new(big.Int).Lsh(big.NewInt(1), ls-53))
+		v.Sub(v, big.NewInt(1))
+		inScale = rlwe.NewScale(new(big.Float).SetPrec(256).SetInt(v))
+	case "rescaled": // the scale two rescalings leave from the squared default scale: 2^(2k) / (q_max * q_(max-1))
+		f := new(big.Float).SetPrec(256).SetInt(new(big.Int).Lsh(big.NewInt(1), uint(2*k.logScale)))
+		f.Quo(f, new(big.Float).SetPrec(256).SetUint64(w.params.Q()[maxL]))
+		f.Quo(f, new(big.Float).SetPrec(256).SetUint64(w.params.Q()[maxL-1]))
+		inScale = rlwe.NewScale(f)
+	}
+	if k.scaleKind != "" {
+		c.Cover("ckks-scale", k.scaleKind)
 	}
 	var ok bool
 	lambda := 128 // security parameter given to GetMinimumLevelForRefresh, as in the repository's tests
@@ -89,13 +106,28 @@ func newCKKSWorld(c *engine.Chooser, name string, k cfg) *ckksWorld {
 		w.POut = mp.NewParties(w.rpOut, k.n)
 		w.gapOut = w.rpOut.N() / w.dslots
 	}
-	pt := ckks.NewPlaintext(w.params, w.lin)
+	encLevel := w.lin
+	if k.scaleKind == "rescaled" {
+		if w.lin > maxL-2 {
+			c.Skip("input level above the level two rescalings leave")
+			return nil
+		}
+		// encode and encrypt at the squared default scale at the top level; the evaluator's Rescale brings it down
+		encLevel = maxL
+		inScale = rlwe.NewScale(new(big.Float).SetPrec(256).SetInt(new(big.Int).Lsh(big.NewInt(1), uint(2*k.logScale))))
+	}
+	pt := ckks.NewPlaintext(w.params, encLevel)
 	pt.Scale = inScale
 	pt.LogDimensions.Cols = k.logSlots
 	w.values = make([]complex128, w.slots)
 	for i := range w.values {
 		// distinct values of modulus < 1
 		w.values[i] = complex(0.9*float64(i+1)/float64(w.slots)-0.45, 0.5-0.8*float64(i)/float64(w.slots))
+		if k.logScale > 50 {
+			// high-precision world: values with 20 fractional bits, so that the float64 arithmetic of the expected
+			// value (products with the small dyadic constants of the transforms) is exact
+			w.values[i] = complex(math.Round(real(w.values[i])*(1<<20))/(1<<20), math.Round(imag(w.values[i])*(1<<20))/(1<<20))
+		}
 	}
 	if k.batched && w.ci {
 		re := make([]float64, w.slots)
@@ -120,18 +152,40 @@ func newCKKSWorld(c *engine.Chooser, name string, k cfg) *ckksWorld {
 			panic(fmt.Sprintf("harness: %v", err))
 		}
 	}
-	Q := uni.QAtLevel(w.rp, w.lin)
-	w.ptCoeffs = uni.PolyCoeffs(w.rp.RingQ(), pt.Value, w.lin, pt.IsNTT, false)
+	Q := uni.QAtLevel(w.rp, encLevel)
+	w.ptCoeffs = uni.PolyCoeffs(w.rp.RingQ(), pt.Value, encLevel, pt.IsNTT, false)
 	for j := range w.ptCoeffs {
 		w.ptCoeffs[j] = ref.Center(w.ptCoeffs[j], Q)
 	}
-	w.ct = ckks.NewCiphertext(w.params, 1, w.lin)
+	w.ct = ckks.NewCiphertext(w.params, 1, encLevel)
 	if err := rlwe.NewEncryptor(w.rp, w.P.Ideal).Encrypt(pt, w.ct); err != nil {
 		panic(fmt.Sprintf("harness: %v", err))
+	}
+	if k.scaleKind == "rescaled" {
+		eval := ckks.NewEvaluator(w.params, nil)
+		if err := eval.Rescale(w.ct, w.ct); err != nil {
+			panic(fmt.Sprintf("harness: rescale: %v", err))
+		}
+		if w.ct.Level() != maxL-2 {
+			panic(fmt.Sprintf("harness: rescale left level %d, expected %d", w.ct.Level(), maxL-2))
+		}
+		if w.ct.Level() > w.lin {
+			eval.DropLevel(w.ct, w.ct.Level()-w.lin)
+		}
+		// the message of this ciphertext is what it decrypts to: the phase under the ideal secret (rescaling rounds)
+		w.ptCoeffs = mp.Phase(w.rp, w.ct.El(), w.P.Ideal)
 	}
 	w.flood = mp.Flood(w.rp, k.sigma)
 	_, w.sup = mp.KSNoise(w.rp, w.flood)
 	return w
+}
+
+// newEncoder: 256 bits of internal precision for scales beyond float64's 53 bits.
+func newEncoder(p ckks.Parameters) *ckks.Encoder {
+	if p.LogDefaultScale() > 50 {
+		return ckks.NewEncoder(p, 256)
+	}
+	return ckks.NewEncoder(p)
 }
 
 // sparse returns the dslots coefficients at the positions j*gap.
@@ -436,7 +490,9 @@ func ckksTransformLeaf(c *engine.Chooser, name string, k cfg) {
 				panic(fmt.Sprintf("harness: %v", err))
 			}
 			return p
-		}, func(p mpckks.MaskedLinearTransformationProtocol) mpckks.MaskedLinearTransformationProtocol { return p.ShallowCopy() })
+		}, func(p mpckks.MaskedLinearTransformationProtocol) mpckks.MaskedLinearTransformationProtocol {
+			return p.ShallowCopy()
+		})
 	}
 	shares := make([]multiparty.RefreshShare, n)
 	crp := mtp[0].SampleCRP(lout, mp.CRS(0))
@@ -515,8 +571,10 @@ func ckksTransformLeaf(c *engine.Chooser, name string, k cfg) {
 	case tf == nil:
 		// no function: every coefficient is rescaled by D/S (truncated towards zero, like the implementation)
 		sp := w.sparse(w.ptCoeffs)
+		Sf := new(big.Float).SetPrec(512).Set(&w.ct.Scale.Value) // the exact scale (need not be an integer)
 		for j := range want {
-			want[j] = new(big.Int).Quo(new(big.Int).Mul(sp[j], D), S)
+			v := new(big.Float).SetPrec(512).SetInt(new(big.Int).Mul(sp[j], D))
+			want[j], _ = v.Quo(v, Sf).Int(nil)
 		}
 	case !tf.Decode && !tf.Encode:
 		// coefficients (paired as complex numbers) -> f -> coefficients
@@ -532,8 +590,8 @@ func ckksTransformLeaf(c *engine.Chooser, name string, k cfg) {
 		}
 		for i := range x {
 			for h, part := range []*big.Float{x[i][0], x[i][1]} {
-				v := new(big.Float).SetPrec(prec).Mul(part, new(big.Float).SetInt(D))
-				v.Quo(v, new(big.Float).SetInt(S))
+				v := new(big.Float).SetPrec(prec+256).Mul(part, new(big.Float).SetInt(D))
+				v.Quo(v, new(big.Float).SetPrec(512).Set(&w.ct.Scale.Value))
 				want[i+h*w.slots], _ = v.Int(nil)
 			}
 		}
@@ -546,7 +604,7 @@ func ckksTransformLeaf(c *engine.Chooser, name string, k cfg) {
 		if tf.Encode {
 			pt := ckks.NewPlaintext(w.pout, lout)
 			pt.LogDimensions.Cols = k.logSlots
-			if err := ckks.NewEncoder(w.pout).Encode(y, pt); err != nil {
+			if err := newEncoder(w.pout).Encode(y, pt); err != nil {
 				panic(fmt.Sprintf("harness: %v", err))
 			}
 			co := uni.PolyCoeffs(rpo.RingQ(), pt.Value, lout, pt.IsNTT, false)
@@ -586,6 +644,11 @@ func ckksTransformLeaf(c *engine.Chooser, name string, k cfg) {
 	bound.Add(bound, new(big.Int).Mul(big.NewInt(int64(n)), supOut))
 	if new(big.Int).Lsh(bound, 3).Cmp(uni.QAtLevel(rpo, lout)) > 0 {
 		c.Skip("noise bound above Q/8 at the output level")
+		return
+	}
+	// the output level must hold the message at the output scale: |coefficients| <= amp * dslots * D
+	if room := new(big.Int).Lsh(D, uint(8+2*k.logSlots)); room.Cmp(uni.QAtLevel(rpo, lout)) > 0 {
+		c.Skip("output level too small for the output scale")
 		return
 	}
 
